@@ -11,15 +11,19 @@ SPEC = {
     "streams": [
         {"kind": "CASE", "type": CASE_T,
          "eval": "fun c => let '(s, w, d, op, v, cf, im) := c in check_c30 s w d op v cf 300 im", "per_shard": 30},
+        {"kind": "VAR", "type": "(N * bool * list ev)",
+         "eval": "fun c => let '(k, same, hooks) := c in check_var k same hooks", "per_shard": 200},
     ],
-    "classes": {1: "static-type-name-not-registered"},
+    "classes": {1: "static-type-name-not-registered", 2: "unvalidated-field-not-in-registry"},
     "n_quick": 400, "n_thorough": 8000,
     "level": "proof",
     "what_violation": "response with pass-through extensions differs from the response without, or hooks not nested / not in lifecycle order",
     "rule": ("derive-built schema family executed with stacks of 0..3 recording pass-through extensions (strict and fast validation, "
              "normal and introspection-only execution); generated queries and mutations with data worlds (faults in half of the worlds), "
              "truncated documents (failing parse), unknown fields (failing validation), unknown operation names, failing resolvers; "
-             "fixed corpus of cut-off cases and finding witnesses first; per document one case per stack size, comparing the full JSON "
+             "fixed corpus of cut-off cases and finding witnesses first; plus a variant schema (MergedObject roots, #[graphql(flatten)] on a SimpleObject field "
+             "and on an #[Object] method, generic object with concrete names, union, interface) on 16 fixed documents, judged by the lifecycle checker "
+             "and response equality only; per document one case per stack size, comparing the full JSON "
              "response, cache policy and headers with the run without extensions and the recorded hook trace (every enter/exit with "
              "arguments) with the model's; non-trivial = extensions attached and data or errors produced"),
     "trusted": ["harness recording extension, world/registry dump and document printer",
